@@ -34,6 +34,7 @@ map-derived parts of the output, loadability of the output.
 import CaddyModel.C16.Spec
 import CaddyModel.Gen.Glue
 import CaddyModel.Gen.MapRanges
+import CaddyModel.Gen.AdapterSources
 import CaddyModel.C16.Lemmas
 import CaddyModel.C16.Witness
 import CaddyModel.C16.LexProps
@@ -260,5 +261,89 @@ theorem copy_headers_range_matches_source :
     Gen.caddyfileMapRanges.contains
       ("modules/caddyhttp/reverseproxy/forwardauth/caddyfile.go:parseCaddyfile", "headersToCopy", "appendkey", "sort.Strings") = true := by
   decide
+
+/-! ### Glue audit: every other source of nondeterminism around the sorter
+
+`Gen.adapterSortCalls` lists every sort call of caddyconfig/** and modules/**/caddyfile.go with the expressions its
+comparator returns; `Gen.adapterOutsideInputs` lists every read of the environment, the clock, randomness, a
+directory listing, every maps.Keys / maps.Values and every `go` statement there.  Both are regenerated from /repo on
+every run; the theorems below pin them, so a new comparator sort, a changed comparator, a goroutine or a clock read
+in the adapter makes the build fail until it is classified here. -/
+
+/-- the comparator sorts, each with: the comparator as written, where the ORDER OF ITS INPUT comes from, and why ties
+cannot make the result vary.  All six take their input in the order of the text (or in an order fixed by an earlier
+plain sort); none takes it from a map.  Five are `sort.SliceStable` (ties keep the input order); the one unstable
+`sort.Slice` (serverOpts) runs a deterministic algorithm on a deterministic input. -/
+def comparatorSortClassification : List (String × String × String × String) := [
+  ("caddyconfig/httpcaddyfile/directives.go:sortRoutes", "routes",
+   "dirPositions[iDir]<dirPositions[jDir] | false | false | iPathLen<jPathLen | iPathLen>jPathLen | len(iRoute.MatcherSetsRaw)>0&&len(jRoute.MatcherSetsRaw)==0 | !sortByPath | sortByPath",
+   "input: the directives of one block in written order; stable; the comparator is Model.less (not a strict weak order: known finding over-20-routes; Stable.lean runs the library's algorithm)"),
+  ("caddyconfig/httpcaddyfile/httptype.go:evaluateGlobalOptionsBlock", "serverOpts",
+   "len(serverOpts[i].ListenerAddress)>len(serverOpts[j].ListenerAddress)",
+   "input: the `servers` options in written order; UNSTABLE sort, key = address length (not injective): ties are placed by a deterministic algorithm from a deterministic input; ServerOpts.lean, op sopts, rename oracle (24 adaptations)"),
+  ("caddyconfig/httpcaddyfile/httptype.go:serversFromPairings", "p.serverBlocks",
+   "false | true | jWildcardHost&&!iWildcardHost | len(iLongestPath)>len(jLongestPath) | specificity(iLongestHost)>specificity(jLongestHost)",
+   "input: the site blocks of one pairing in written order (consolidateAddrMappings keeps it); stable; oracle streams perm / site / dadapt"),
+  ("caddyconfig/httpcaddyfile/httptype.go:serversFromPairings", "errorSubrouteVals",
+   "false | false | true",
+   "input: the handle_errors blocks of one site in written order; stable; corpus f19-empty-handle-errors, adapt streams"),
+  ("caddyconfig/httpcaddyfile/httptype.go:consolidateConnPolicies", "cps",
+   "cps[j].MatchersRaw==nil&&cps[i].MatchersRaw!=nil",
+   "input: policies appended site block by site block (order fixed above); stable; two classes only; dadapt merge shapes"),
+  ("caddyconfig/httpcaddyfile/tlsapp.go:consolidateAutomationPolicies", "aps",
+   "true | false | len(aps[i].SubjectsRaw)>len(aps[j].SubjectsRaw)",
+   "input: policies appended pairing by pairing (addresses sorted) and site block by site block; stable; dadapt merge shapes")]
+
+set_option maxRecDepth 100000 in
+/-- every sort call of the adapter is either a plain sort of strings (`sort.Strings` / `slices.Sort`: the key is the
+element itself, total and injective — `sortByKey_perm_invariant` applies whatever order the input had) or one of the six
+classified comparator sorts, with exactly the comparator written there -/
+theorem adapter_sort_calls_matches_source :
+    Gen.adapterSortCalls.all (fun r =>
+      ((r.2.1 == "sort.Strings" || r.2.1 == "slices.Sort") && r.2.2.2 == "") ||
+      comparatorSortClassification.any (fun c => c.1 == r.1 && c.2.1 == r.2.2.1 && c.2.2.1 == r.2.2.2)) = true
+    ∧ comparatorSortClassification.all (fun c =>
+        Gen.adapterSortCalls.any (fun r => c.1 == r.1 && c.2.1 == r.2.2.1 && c.2.2.1 == r.2.2.2)) = true := by
+  decide
+
+/-- the only unstable sort of the adapter is the one over the `servers` options -/
+theorem adapter_unstable_sorts_matches_source :
+    (Gen.adapterSortCalls.filter (fun r => r.2.1 == "sort.Slice")).map (fun r => (r.1, r.2.2.1)) =
+      [("caddyconfig/httpcaddyfile/httptype.go:evaluateGlobalOptionsBlock", "serverOpts")] := by decide
+
+/-- the adapter and the unmarshalers start no goroutine, read no clock, no randomness, no host name, call neither
+maps.Keys nor maps.Values; they read the environment in exactly one place (`{$VAR}` substitution: ParseGlue.lean, op
+env — the environment is an INPUT of the adaptation) and list a directory in exactly one place (`import` with a glob:
+filepath.Glob returns its matches sorted — the listing is an input too; stream `adapt` with the fixtures in inc/) -/
+theorem adapter_outside_inputs_matches_source :
+    Gen.adapterOutsideInputs =
+      [("caddyconfig/caddyfile/parse.go:replaceEnvVars", "os.LookupEnv"),
+       ("caddyconfig/caddyfile/parse.go:doImport", "filepath.Glob")] := by decide
+
+set_option maxRecDepth 100000 in
+/-- the plain sorts of the adapter, one by one: each makes a slice collected from a map (or from several site blocks)
+independent of the iteration order — removing one of them makes this theorem fail (and the 8- / 64-fold
+adaptation oracle finds the text) -/
+theorem adapter_plain_sorts_matches_source :
+    (Gen.adapterSortCalls.filter (fun r => r.2.2.2 == "")).map (fun r => (r.1, r.2.2.1)) =
+      [("caddyconfig/httpcaddyfile/addresses.go:mapAddressToProtocolToServerBlocks", "addrs"),
+       ("caddyconfig/httpcaddyfile/addresses.go:mapAddressToProtocolToServerBlocks", "prots"),
+       ("caddyconfig/httpcaddyfile/addresses.go:consolidateAddrMappings", "addrs"),
+       ("caddyconfig/httpcaddyfile/addresses.go:consolidateAddrMappings", "prots"),
+       ("caddyconfig/httpcaddyfile/addresses.go:consolidateAddrMappings", "addresses"),
+       ("caddyconfig/httpcaddyfile/addresses.go:consolidateAddrMappings", "prots"),
+       ("caddyconfig/httpcaddyfile/directives.go:Caddyfiles", "filesSlice"),
+       ("caddyconfig/httpcaddyfile/httptype.go:Setup", "defaultLog.Exclude"),
+       ("caddyconfig/httpcaddyfile/httptype.go:serversFromPairings", "hosts"),
+       ("caddyconfig/httpcaddyfile/httptype.go:serversFromPairings", "srv.Logs.SkipHosts"),
+       ("caddyconfig/httpcaddyfile/httptype.go:buildSubroute", "keys"),
+       ("caddyconfig/httpcaddyfile/tlsapp.go:buildTLSApp", "hostsNotHTTP"),
+       ("caddyconfig/httpcaddyfile/tlsapp.go:buildTLSApp", "al"),
+       ("caddyconfig/httpcaddyfile/tlsapp.go:buildTLSApp", "internalAP.SubjectsRaw"),
+       ("modules/caddyhttp/reverseproxy/forwardauth/caddyfile.go:parseCaddyfile", "sortedHeadersToCopy")] := by
+  decide
+
+example : comparatorSortClassification.length = 6 ∧ Gen.adapterSortCalls.length = 21 := by decide
+
 
 end CaddyModel.C16
